@@ -5,7 +5,11 @@ import asyncio, itertools
 
 def lab_files():
     from vf import genlab as G
-    fd = G.new_file("acme/lab/v1/lab.proto", "acme.lab.v1")
+    resf = G.new_file("acme/lab/v1/resources.proto", "acme.lab.v1")
+    G.add_message(resf, "Widget", [G.F("name", 1, G.T.TYPE_STRING)])
+    fd = G.new_file("acme/lab/v1/lab.proto", "acme.lab.v1", deps=G.STD_DEPS + ["acme/lab/v1/resources.proto"])
+    # items declared in ANOTHER file of the same package (resources.proto / service file split)
+    G.add_message(fd, "ListWidgetsResp", [G.F("widgets", 1, G.T.TYPE_MESSAGE, label=G.REPEATED, type_name=".acme.lab.v1.Widget"), G.F("next_page_token", 2, G.T.TYPE_STRING)])
     G.add_message(fd, "Item", [G.F("name", 1, G.T.TYPE_STRING)])
     G.add_message(fd, "ListReq", [G.F("parent", 1, G.T.TYPE_STRING), G.F("page_size", 2, G.T.TYPE_INT32), G.F("page_token", 3, G.T.TYPE_STRING),
                                   G.F("filter", 4, G.T.TYPE_STRING)])
@@ -20,6 +24,7 @@ def lab_files():
     svc = G.add_service(fd, "Lab")
     G.add_method(svc, "ListThings", ".acme.lab.v1.ListReq", ".acme.lab.v1.ListResp", http=("get", "/v1/{parent=p/*}/things"))
     G.add_method(svc, "ListMap", ".acme.lab.v1.ListReq", ".acme.lab.v1.MapResp", http=("get", "/v1/{parent=p/*}/map"))
+    G.add_method(svc, "ListWidgets", ".acme.lab.v1.ListReq", ".acme.lab.v1.ListWidgetsResp", http=("get", "/v1/{parent=p/*}/widgets"))
     # Compute-style: every field declared proto3 `optional` (tokens and size sit in synthetic oneofs) - still paginated
     orq = G.add_message(fd, "OptReq", [G.F("parent", 1, G.T.TYPE_STRING), G.F("page_size", 2, G.T.TYPE_INT32, proto3_optional=True, oneof_index=0),
                                        G.F("page_token", 3, G.T.TYPE_STRING, proto3_optional=True, oneof_index=1)])
@@ -30,7 +35,7 @@ def lab_files():
     G.add_method(svc, "ListOpt", ".acme.lab.v1.OptReq", ".acme.lab.v1.OptResp", http=("get", "/v1/{parent=p/*}/opt"))
     # a paginated rpc whose request and response are plain protobuf types of another package
     G.add_method(svc, "ListOps", ".google.longrunning.ListOperationsRequest", ".google.longrunning.ListOperationsResponse", http=("get", "/v1/{name=ops}"))
-    return [fd]
+    return [resf, fd]
 
 
 HISTORIES = [
